@@ -200,6 +200,18 @@ func (w *world) apply(m Mut) map[string][]byte {
 			c[m.Off%len(d)] ^= 1 << uint(m.Bit%8)
 			out[name] = c
 		}
+	case "zerohash":
+		// PAR1: the control hash field is wiped (all zero bytes) and one more bit of the checksummed region is flipped
+		if len(d) >= 0x20 {
+			c := append([]byte{}, d...)
+			for k := 0x10; k < 0x20; k++ {
+				c[k] = 0
+			}
+			if m.Off >= 0x20 && m.Off < len(c) {
+				c[m.Off] ^= 1 << uint(m.Bit%8)
+			}
+			out[name] = c
+		}
 	case "raw":
 		out[name] = m.Raw
 	case "garbage":
@@ -573,6 +585,14 @@ func (w *world) enumerate(thorough bool) []Mut {
 			}
 		}
 		ms = append(ms, Mut{Op: "garbage", File: fi, Off: 1}, Mut{Op: "garbage", File: fi, Off: 2}, Mut{Op: "zeros", File: fi}, Mut{Op: "empty", File: fi}, Mut{Op: "delete", File: fi})
+		if w.base.Format == "par1" {
+			ms = append(ms, Mut{Op: "zerohash", File: fi})
+			for _, o := range []int{0x20, 0x30, 0x38, 0x48, 0x58, 0x60, 0x68, 0x70, 0x78, 0x60 + 56, 0x60 + 58, 0x60 + 60, n - 1} {
+				for _, bit := range []int{0, 1, 5} {
+					ms = append(ms, Mut{Op: "zerohash", File: fi, Off: o, Bit: bit})
+				}
+			}
+		}
 		// interrupted Create: this file torn at every packet boundary (PAR1: header/entry boundaries), later files absent
 		var tears []int
 		if w.base.Format == "par2" {
@@ -675,6 +695,8 @@ func mutClass(w *world, m Mut) string {
 		return "flip-par1-entry-or-data"
 	case "dtrunc", "dflip", "dgarbage", "dempty", "ddelete", "dgrow", "dappend", "dslice", "dswap", "dover":
 		return "data-file-" + m.Op[1:]
+	case "zerohash":
+		return "control-hash-wiped"
 	case "prefix":
 		return "interrupted-create"
 	case "subset":
